@@ -1016,6 +1016,7 @@ func runC18(c *core.Ctx) {
 	c18FreshSection(c, c.N(2400, 60000))
 	coldSection(c, c.N(100, 2000), nil)
 	burstSection(c, c.N(480, 48000))
+	collideSection(c)
 	// the same concurrent workload without the race detector: results only, more volume
 	reps := c.N(1, 12)
 	c.Section("concurrent-plain", uint64(len(c18Configs))*reps, func(cs *core.Case) {
